@@ -135,6 +135,8 @@ def ev_item(it, r, env=None):
         return env.custom[it['custom']](Jet.var(r), *it['params'])
     if 'table' in it:
         return env.tables[it['table']](r)
+    if 'py' in it:
+        return env.custom[it['py']](Jet.var(r))
     m = it['mod']
     if m == 'sum':
         out = Jet(0.0)
